@@ -241,6 +241,7 @@ def run_lines(exe, lines, env=None, timeout=900, per_line_timeout=10, block_star
     n = len(lines)
     linebuf = False
     prefix = []
+    hangs = 0
     while start < n:
         ee = dict(e)
         if linebuf: ee['HARNESS_LINEBUF'] = '1'
@@ -279,6 +280,12 @@ def run_lines(exe, lines, env=None, timeout=900, per_line_timeout=10, block_star
                 m3 = re.search(r"Assertion `([^']*)' failed", err)
                 reason = 'assert:' + (m3.group(1).replace(' ', '') if m3 else '?')
             res.append('CRASH ' + reason)
+            if reason == 'timeout':
+                hangs += 1
+                if hangs >= 6:
+                    # the implementation keeps hanging: do not spend 30 s on each of the remaining ops
+                    res.extend(['CRASH timeout-not-run'] * (n - k - 1))
+                    break
             start = k + 1
             s0 = 0
             if block_starts:
